@@ -60,7 +60,7 @@ func rulesC04(c *Ctx) {
 	c.Rule("R-C04-1", "caller side: on ctx cancellation the call is retired on the return path; the cancelled notice is sent off the return path with a bounded, detached context and names exactly this call's id", func() {
 		call := c.Fn(pM, "", "call")
 		g := call.Graph()
-		ctxParam := call.Param("ctx")
+		ctxParam := call.CtxParam()
 		dbg := c.Obj(pM, "blockingcancelnotify")
 		// the AsyncCall variable
 		var acVar types.Object
@@ -155,7 +155,7 @@ func rulesC04(c *Ctx) {
 
 		cc := c.Fn(pM, "", "cancelCall")
 		cg := cc.Graph()
-		cctx, ccall := cc.Param("ctx"), cc.Param("call")
+		cctx, ccall := cc.CtxParam(), cc.ParamOfNamed(pJ, "AsyncCall")
 		for _, nc := range cc.CallsIn(cc.Body, notifyObj, false) {
 			ok, why := c.detachedNotifyCtx(cc, nc.Args[0], cctx)
 			c.Check(ok, "cancelCall:notify-context", cc, nc, "bounded detached context %s", why)
@@ -185,7 +185,7 @@ func rulesC04(c *Ctx) {
 							return false
 						}
 						s, ok := ast.Unparen(ce.Fun).(*ast.SelectorExpr)
-						return ok && s.Sel.Name == "Done" && lit.ObjOf(s.X) == cl.Param("ctx")
+						return ok && s.Sel.Name == "Done" && lit.ObjOf(s.X) == types.Object(cl.CtxParam())
 					})
 				})
 				okL = okd
@@ -198,7 +198,7 @@ func rulesC04(c *Ctx) {
 		pre := c.Fn(pM, "canceller", "Preempt")
 		g := pre.Graph()
 		cancelObj := c.FnObj(pJ, "Connection", "Cancel")
-		reqParam := pre.Param("req")
+		reqParam := pre.ParamOfNamed(pJ, "Request")
 		methodF := c.Field(pJ, "Request", "Method")
 		paramsF := c.Field(pJ, "Request", "Params")
 		nc := c.Obj(pM, "notificationCancelled")
@@ -314,7 +314,7 @@ func rulesC04(c *Ctx) {
 					for _, s := range c.uifSites(f) {
 						for _, w := range Writes(s.Lit.Body, false) {
 							if s.Lit.ObjOf(w.LHS) == v && w.RHS != nil {
-								if m, k, ok := indexOf(w.RHS); ok && s.Lit.IsField(m, byID) && s.Lit.ObjOf(k) == CancelFn.Param("id") {
+								if m, k, ok := indexOf(w.RHS); ok && s.Lit.IsField(m, byID) && s.Lit.ObjOf(k) == types.Object(CancelFn.ParamOfNamed(pJ, "ID")) {
 									okSrc = true
 								}
 							}
@@ -323,7 +323,7 @@ func rulesC04(c *Ctx) {
 					all := f.writesToVar(f.Body, v, true)
 					roles["by-id"]++
 					c.Check(okSrc && len(all) <= 2, key+"-by-id", f, call, "Cancel cancels exactly incomingByID[id] for its own parameter id")
-				case f.Obj == procObj && f.ObjOf(sel.X) == f.Param("req"):
+				case f.Obj == procObj && f.ObjOf(sel.X) == types.Object(f.ParamOfNamed(pJ, "incomingRequest")):
 					roles["own"]++
 					c.Ok(key+"-own-request", f, call, "processResult cancels the context of the request it just finished (resource release)")
 				default:
@@ -545,7 +545,7 @@ func ruleWriteErrGuard(c *Ctx) {
 		writeErr := c.Field(pJ, "inFlightState", "writeErr")
 		errIs := c.Std("errors", "", "Is")
 		eRej := c.Obj(pJ, "ErrRejected")
-		ctxParam := wr.Param("ctx")
+		ctxParam := wr.CtxParam()
 		n := 0
 		for _, s := range c.uifSites(wr) {
 			if len(s.Lit.FieldWrites(s.Lit.Body, writeErr, false)) == 0 {
